@@ -11,7 +11,8 @@ def run(tier):
     thorough = tier == "thorough"
     drvs = vp.build_many([("ptr_driver", ["ptr_driver.cpp"], [], "-O2"),
                           ("ptr_driver_lp16", ["ptr_driver.cpp"], ["-DABI_LP16"], "-O2"),
-                          ("ptr_driver_lp64u", ["ptr_driver.cpp"], ["-DABI_LP64U"], "-O2")])
+                          ("ptr_driver_lp64u", ["ptr_driver.cpp"], ["-DABI_LP64U"], "-O2"),
+                          ("ptr_driver_ilp64", ["ptr_driver.cpp"], ["-DABI_ILP64"], "-O2")])
     from concurrent.futures import ThreadPoolExecutor
 
     def one(abi):
@@ -24,8 +25,8 @@ def run(tier):
         for e in evs:
             e["abi"] = abi
         return evs, bd
-    with ThreadPoolExecutor(max_workers=3) as ex:
-        res = list(ex.map(one, ("wasm32", "lp16", "lp64u")))
+    with ThreadPoolExecutor(max_workers=4) as ex:
+        res = list(ex.map(one, ("wasm32", "lp16", "lp64u", "ilp64")))
     events = [e for evs, _ in res for e in evs]
     bad = [b for _, bd in res for b in bd]
     combos = set()
